@@ -643,6 +643,14 @@ func genPipeDoc(r *Run, nd bool) (doc []byte, desc string) {
 		pos := c.Intn("defpos", 4)
 		doc = ApplyDefect(c, d, kind, pos)
 		desc += fmt.Sprintf(" defect=%s@%d", defNames[kind], pos)
+		if c.Intn("defect2", 4) == 0 && len(doc) > 64 {
+			// a second, independent defect of the kind stage 1 finds (in a string near the end): both stages have
+			// something to report, which one the caller hears about must not depend on who was faster
+			tail := []string{"\"a\x01b\"", "\"unterminated", "\"\x1f\""}[c.Intn("defect2kind", 3)]
+			at := len(doc) - 1 - c.Intn("defect2at", min(len(doc)-1, 40))
+			doc = append(append(append([]byte(nil), doc[:at]...), tail...), doc[at:]...)
+			desc += " +ctrl-near-end"
+		}
 	}
 	return
 }
@@ -884,7 +892,9 @@ func compareOutcomes(r *Run, a, b []parseOutcome, refs []RefResult, cfgs []parse
 			return false
 		}
 		if o.errText != f.errText {
-			r.stat("error_text_varies", 1)
+			// "the outcome (error, or the exact document) is the same under every interleaving"
+			r.violate("schedule-dependent", "error", fmt.Sprintf("%s: error %q but in %s %q", what, o.errText, whatA, f.errText))
+			return false
 		}
 	}
 	return true
